@@ -135,6 +135,16 @@ def scroll_down_str(n:int) -> str:
     '''
     return ansi_control_sequence_introducer + format(n, 'd') + 'T'
 
+def _plain_text(value):
+    '''
+    An AnsiStr given where a str is expected (separator, prefix, search string ...) stands for its text: its raw str
+    value is its rendering, while len() and indexing work on the text. A tuple of such values is converted item by item.
+    '''
+    if isinstance(value, tuple):
+        return tuple(_plain_text(v) for v in value)
+    return value.base_str if isinstance(value, AnsiStr) else value
+
+
 class AnsiString:
     '''
     Represents an ANSI colorized/formatted string. All or part of the string may contain style and
@@ -1292,6 +1302,7 @@ class AnsiString:
 
         If the separator is not found, returns a 3-tuple containing the original string and two empty strings.
         '''
+        sep = _plain_text(sep)
         idx = self._s.find(sep)
         if idx >= 0:
             sep_len = len(sep)
@@ -1309,6 +1320,7 @@ class AnsiString:
 
         If the separator is not found, returns a 3-tuple containing the original string and two empty strings.
         '''
+        sep = _plain_text(sep)
         idx = self._s.rfind(sep)
         if idx >= 0:
             sep_len = len(sep)
@@ -1426,6 +1438,7 @@ class AnsiString:
             inplace - when True, do the conversion in-place and return self;
                       when False, do the conversion on a copy and return the copy
         '''
+        prefix = _plain_text(prefix)
         if not self._s.startswith(prefix):
             if inplace:
                 return self
@@ -1446,6 +1459,7 @@ class AnsiString:
             inplace - when True, do the conversion in-place and return self;
                       when False, do the conversion on a copy and return the copy
         '''
+        suffix = _plain_text(suffix)
         if not suffix or not self._s.endswith(suffix):
             if inplace:
                 return self
@@ -1466,6 +1480,7 @@ class AnsiString:
             inplace - when True, do the conversion in-place and return self;
                       when False, do the conversion on a copy and return the copy
         '''
+        old = _plain_text(old)
         obj = self
         idx = obj._s.find(old)
         while (count < 0 or count > 0) and idx >= 0:
@@ -1494,6 +1509,7 @@ class AnsiString:
         Return the number of non-overlapping occurrences of substring sub in
         string S[start:end]. Optional arguments start and end are interpreted as in slice notation.
         '''
+        sub = _plain_text(sub)
         return self._s.count(sub, start, end)
 
     def encode(self, encoding:str="utf-8", errors:str="strict") -> bytes:
@@ -1514,6 +1530,7 @@ class AnsiString:
         Return True if S ends with the specified suffix, False otherwise. With optional start, test S beginning at that
         position. With optional end, stop comparing S at that position. suffix can also be a tuple of strings to try.
         '''
+        suffix = _plain_text(suffix)
         return self._s.endswith(suffix, start, end)
 
     def expandtabs(self, tabsize:int=8, inplace:bool=False) -> 'AnsiString':
@@ -1533,6 +1550,7 @@ class AnsiString:
 
         Return -1 on failure.
         '''
+        sub = _plain_text(sub)
         return self._s.find(sub, start, end)
 
     def index(self, sub:str, start:int=None, end:int=None) -> int:
@@ -1542,6 +1560,7 @@ class AnsiString:
 
         Raises ValueError when the substring is not found.
         '''
+        sub = _plain_text(sub)
         return self._s.index(sub, start, end)
 
     def isalnum(self) -> bool:
@@ -1660,6 +1679,7 @@ class AnsiString:
 
         Return -1 on failure.
         '''
+        sub = _plain_text(sub)
         return self._s.rfind(sub, start, end)
 
     def rindex(self, sub:str, start:int=None, end:int=None) -> int:
@@ -1672,6 +1692,7 @@ class AnsiString:
 
         Raises ValueError when the substring is not found.
         '''
+        sub = _plain_text(sub)
         return self._s.rindex(sub, start, end)
 
     def _split(self, sep:Union[str,None]=None, maxsplit:int=-1, r:bool=False) -> List['AnsiString']:
@@ -1682,6 +1703,7 @@ class AnsiString:
             maxsplit - maximum number of splits to make or -1 for no limit
             r - True to search from right; False to search from left
         '''
+        sep = _plain_text(sep)
         if r:
             str_splits = self._s.rsplit(sep, maxsplit)
         else:
